@@ -30,7 +30,12 @@ type item struct {
 	ML   bool
 }
 
+// The sweep is deterministic (its own fixed seed, not VERIF_SEED): its items are the set
+// the signature catalogue of pipeline/tick and pipeline JSON deviations is complete for.
 func (x *gen) sweepMembers(emit func(item)) (kinds, members, unreachable int) {
+	saved := x.rnd
+	x.rnd = seeded(20260926)
+	defer func() { x.rnd = saved }()
 	// a member promoted from an embedded struct (the ~60 chaining methods of chainnode, the
 	// ~100 alert properties every handler object re-exports) is swept on at most 2 kinds per source
 	swept := map[string]int{}
@@ -48,13 +53,14 @@ func (x *gen) sweepMembers(emit func(item)) (kinds, members, unreachable int) {
 			if m.Owner != "" && swept[dk] >= 2 {
 				continue
 			}
+			// argument classes: 0 plain first spellings, 1 zero values, 2..3 awkward spellings
 			variants := 1
 			if len(m.In) > 0 {
-				variants = 3
+				variants = 4
 			}
 			got := false
 			for v := 0; v < variants; v++ {
-				x.rich = v > 0
+				x.rich, x.zero = v > 1, v == 1
 				var nodeVars []string
 				if strings.HasPrefix(prefix, "var o = ") {
 					nodeVars = []string{"o"}
@@ -75,7 +81,7 @@ func (x *gen) sweepMembers(emit func(item)) (kinds, members, unreachable int) {
 				got = true
 				emit(item{Cls: "member", Edge: src, Src: s + "\n", Tag: describeMember(k, m)})
 			}
-			x.rich = false
+			x.rich, x.zero = false, false
 			if got {
 				members++
 				swept[dk]++
